@@ -235,7 +235,8 @@ func VerifC19_Purge() {
 	// versions known from an index only are not on disk: none, or a run of one
 	// or two versions anywhere in the list (thorough: any subset)
 	gapAt, gapLen := cnt, 2
-	if !rt.Thorough() {
+	if !rt.Thorough() && cnt <= 4 {
+		// (quick tier: with five versions all are on disk)
 		gapAt = rt.Choice("unavailable-from", cnt+1)
 	}
 	// the versions were added newest first (as a selection leaves them), or
